@@ -34,7 +34,7 @@ except Exception as ex:
 print('TERMINATES')
 '''
 
-def confirm_nontermination(p, cpu_s=90):
+def confirm_nontermination(p, cpu_s=45):
     '''a watchdog hit inside a loaded worker process is only a suspicion: the simplification is repeated in a fresh interpreter under a CPU-time limit
     (RLIMIT_CPU, independent of machine load).  returns (confirmed, detail)'''
     import subprocess
@@ -64,6 +64,14 @@ def replay_value(p, args):
     if tv.same(r0, r1): return False, 'agree'
     return True, f'original={tv.tolist(r0)} simplified={tv.tolist(r1)}'
 
+def _term_classes(classes):
+    '''identity of a termination finding: the recorded rewrite cycle is the one between an indexed (take/inflate) Diagonalize and a product or diagonal taken of it;
+    further structural operations around that core (sums, extra diagonals of a product, transposes) do not make it a different finding'''
+    cs = set(classes.split('+'))
+    if {'diagonalize', 'index'} <= cs and cs & {'product', 'takediag'} and cs <= {'diagonalize', 'index', 'product', 'takediag', 'add', 'sum'}:
+        return 'diagonalize+index+product' if 'product' in cs else 'diagonalize+index+takediag'
+    return classes
+
 def _fails_term(q):
     return simplified_guarded(progs.build(q))[0] in ('timeout', 'loop')
 def _fails_any(q):
@@ -90,7 +98,7 @@ def _work(p, minimize=True):
         if not ok:
             res['unconfirmed'].append(f'{key}: watchdog/loop in the worker not confirmed in a fresh process ({detail})'); res['status'] = 'term_unconfirmed'; return res
         res['viol'].append((f'simplification does not terminate ({st}): {key}', dict(program=key, kind='termination', detail=str(es))))
-        if minimize: c = progs.core(p, _fails_term); res['core'] = 'termination:' + progs.op_classes(c); res['core_program'] = progs.show(c)
+        if minimize: c = progs.core(p, _fails_term); res['core'] = 'termination:' + _term_classes(progs.op_classes(c)); res['core_program'] = progs.show(c)
         res['status'] = 'term'; return res
     if st == 'exc':
         # only a violation if the original is defined somewhere (probe with in-range concrete arguments)
